@@ -25,6 +25,7 @@ type preItem struct {
 type Prelude struct {
 	items []*preItem
 	bySym map[string]*preItem
+	groups map[string][]string // symbol -> symbols that must accompany it (boxing functions of one type)
 	Files []string
 }
 
@@ -124,17 +125,26 @@ func listElems(s string) []string {
 	return out
 }
 
-func LoadPrelude(dir string) (*Prelude, error) {
-	p := &Prelude{bySym: map[string]*preItem{}}
+func LoadPrelude(dir string, auto string, groups map[string][]string) (*Prelude, error) {
+	p := &Prelude{bySym: map[string]*preItem{}, groups: groups}
 	files, _ := filepath.Glob(filepath.Join(dir, "*.smt2"))
 	sort.Strings(files)
-	for _, f := range files {
+	// 00_core first, then the generated per-type declarations, then the rest
+	var texts []struct{ name, text string }
+	for i, f := range files {
 		b, err := os.ReadFile(f)
 		if err != nil {
 			return nil, err
 		}
 		p.Files = append(p.Files, f)
-		for _, sx := range splitSexprs(string(b)) {
+		texts = append(texts, struct{ name, text string }{f, string(b)})
+		if i == 0 {
+			texts = append(texts, struct{ name, text string }{"<generated type declarations>", auto})
+		}
+	}
+	for _, tx := range texts {
+		f := tx.name
+		for _, sx := range splitSexprs(tx.text) {
 			sx = strings.TrimSpace(stripComments(sx))
 			el := listElems(sx)
 			it := &preItem{text: sx, file: f}
@@ -191,10 +201,14 @@ func LoadPrelude(dir string) (*Prelude, error) {
 func (p *Prelude) Slice(body string) string {
 	need := map[string]bool{}
 	var work []string
-	add := func(s string) {
+	var add func(s string)
+	add = func(s string) {
 		if p.bySym[s] != nil && !need[s] {
 			need[s] = true
 			work = append(work, s)
+			for _, g := range p.groups[s] {
+				add(g)
+			}
 		}
 	}
 	for _, t := range tokenize(body) {
